@@ -89,7 +89,7 @@ AXES = dict(BASE, params=dict(self='obj:Domain', attrs='seq:obj'),
                      'axis-is-position-of-attribute': 'forall(lambda i: 0 <= result[i] and result[i] < len(self.attrs) and same(self.attrs[result[i]], attrs[i]), 0, len(attrs))'})
 
 # ------------------------------------------------------------------ merge
-MERGE = dict(BASE, inst_rounds=3, params=dict(self='obj:Domain', other='obj:Domain'), requires=inv('self') + inv('other'),
+MERGE = dict(BASE, params=dict(self='obj:Domain', other='obj:Domain'), requires=inv('self') + inv('other'),
              ensures={'self-attributes-first': 'len(result.attrs) >= len(self.attrs) and forall(lambda i: same(result.attrs[i], self.attrs[i]) and result.shape[i] == self.shape[i], 0, len(self.attrs))',
                       'then-new-attributes-of-other': 'forall(lambda j: implies(j >= len(self.attrs), (result.attrs[j] in other.attrs) and not (result.attrs[j] in self.attrs)), 0, len(result.attrs))',
                       'covers-other': 'forall(lambda i: other.attrs[i] in result.attrs, 0, len(other.attrs))',
@@ -105,8 +105,14 @@ MERGE_RESULT_INVARIANT = {
     'result-invariant:config-matches-shape': 'forall(lambda i: result.config[result.attrs[i]] == result.shape[i], 0, len(result.attrs))'}
 MERGE = dict(MERGE, ensures=dict(MERGE['ensures'], **MERGE_RESULT_INVARIANT),
              ensures_as_lemmas=['result-invariant:attributes-distinct'],
+             # index terms at which the paper proof of each clause instantiates the quantified facts (position in the result,
+             # position in the appended part); one eager E-matching round + model-based refinement do the rest
              hints={'result-invariant:config-matches-shape':
-                    dict(terms=['_sk', 'last_index(self.attrs + extra.attrs, (self.attrs + extra.attrs)[_sk])'], inst_rounds=0)})
+                    dict(terms=['_sk', 'last_index(self.attrs + extra.attrs, (self.attrs + extra.attrs)[_sk])'], inst_rounds=0),
+                    'self-attributes-first': dict(terms=['_sk']),
+                    'then-new-attributes-of-other': dict(terms=['_sk', '_sk - len(self.attrs)']),
+                    'covers-other': dict(terms=['_sk']),
+                    'new-sizes-from-other': dict(terms=['_sk', '_sk - len(self.attrs)'])})
 # name kept for the callers' contracts (pv/contracts/factor.py): these clauses are now proved on merge's body
 MERGE_RESULT_INVARIANT_ASSUMED = {k.replace('result-invariant:', 'inv:'): v for k, v in MERGE_RESULT_INVARIANT.items()}
 
